@@ -6,7 +6,7 @@ R03.2 positional consistency in fcp.h.j2: loops that define positional correspon
       FromJson arguments, Decode's constructor arguments) iterate in the same order; wire loops are id-sorted
 R03.3 enum width source: Encode, Decode and GetSize use enum.get_packed_size()
 R03.5 wrapper-interface parametricity (compile-fail witness through clang++ -fsyntax-only)
-R03.4 (thorough) wire grammar and bit mapping of decoders.h / buffer.h through clang
+R03.4 wire grammar and bit mapping of decoders.h / buffer.h through clang
 """
 
 from __future__ import annotations
@@ -40,7 +40,7 @@ def run(eng, rep) -> None:
     rep.rule("R03.3", "enum Encode/Decode/GetSize width = enum.get_packed_size()")
     rep.rule("R03.6", "carrier selection contains no down-rounding of the bit width (floor division without +7 compensation, floor())")
     rep.rule("R03.5", "container wrappers compile for an element type with only the wrapper interface (clang++ -fsyntax-only witness)")
-    rep.rule("R03.4", "(thorough) C++ wrapper grammars == canonical; Buffer per-bit mapping canonical; cursor advance by width; no lossy sub-byte shift")
+    rep.rule("R03.4", "C++ wrapper grammars == canonical; Buffer per-bit mapping canonical; cursor advance by width; no lossy sub-byte shift")
     rep.assume("that the rendered fcp.h compiles for every schema; carrier selection _to_highest_power_of_two (numeric identity over 1..64); JSON conversions; sign extension arithmetic in GetWord")
     tv = prog.cls(TV)
     visit = tv.methods.get("visit")
@@ -140,8 +140,7 @@ def run(eng, rep) -> None:
                 rep.check(not floors, "R03.6", g.file, g.qual, "carrier width of %s" % h, "no down-rounding of the bit width", "the carrier width is computed with a down-rounding step (%s): some widths get a carrier narrower than the field (e.g. 12 bits in an 8-bit integer)" % floors[0] if floors else "")
     from .cpp_codec import run_witness, run_cpp_wire
     run_witness(eng, rep, "R03.5")
-    if eng.tier == "thorough":
-        run_cpp_wire(eng, rep, "R03.4")
+    run_cpp_wire(eng, rep, "R03.4")
 
 
 def template_text(e: ast.AST) -> Optional[str]:
